@@ -49,7 +49,8 @@ def base_cmd(harnesses, jobs, harness_timeout, unwind, extra_cbmc=(), playback=F
     for h in harnesses:
         cmd += ["--harness", h]
     cmd += ["--exact", "--target-dir", KTARGET]
-    cmd += ["--cbmc-args", "--unwind", str(unwind)] + list(extra_cbmc)
+    if extra_cbmc:
+        cmd += ["--cbmc-args"] + list(extra_cbmc)
     return cmd
 
 
@@ -150,3 +151,38 @@ def native_replay(binary, harness, vals):
     failed = [l[len("FAILED-CHECK "):] for l in p.stdout.splitlines() if l.startswith("FAILED-CHECK ")]
     notes = [l[5:] for l in p.stdout.splitlines() if l.startswith("NOTE ")]
     return p.returncode, failed, notes
+
+
+def codegen_only(harnesses, features=()):
+    """Compile the selected harnesses (no verification) so that symbol maps exist."""
+    sync_lock()
+    cmd = ["cargo", "kani", "-Z", "stubbing", "-Z", "unstable-options"]
+    if features:
+        cmd += ["--features", ",".join(features)]
+    cmd += ["--no-memory-safety-checks", "--no-overflow-checks", "--only-codegen"]
+    for h in harnesses:
+        cmd += ["--harness", h]
+    cmd += ["--exact", "--target-dir", KTARGET]
+    p = subprocess.run(cmd, cwd=KDIR, env=env_offline(), stdout=subprocess.PIPE, stderr=subprocess.STDOUT, text=True)
+    return p.returncode, p.stdout
+
+
+def loop_ids(harnesses, pretty_regex):
+    """Mangled names of the functions whose pretty name matches, read from the symbol maps Kani wrote for these harnesses."""
+    import glob
+    rx = re.compile(pretty_regex)
+    found = set()
+    base = os.path.join(KTARGET, "kani", "x86_64-unknown-linux-gnu", "debug", "build", "vk")
+    for h in harnesses:
+        short = h.split("::")[-1]
+        files = sorted(glob.glob(os.path.join(base, "*", "out", "*%s.pretty_name_map.json" % short)), key=os.path.getmtime)
+        if not files:
+            continue
+        try:
+            d = json.load(open(files[-1]))
+        except (OSError, ValueError):
+            continue
+        for mangled, pretty in d.items():
+            if isinstance(pretty, str) and rx.search(pretty) and "::" not in mangled:
+                found.add(mangled)
+    return sorted(found)
